@@ -848,8 +848,9 @@ func (g *gen) stalePrefixProg(o rosed.Options) {
 	}
 	k := nsel/3 + g.r.Intn(nsel-nsel/3-1)
 	cut := []string{fmt.Sprintf("delete,1,%d,End", k), fmt.Sprintf("charsto,1,%d", k)}[g.r.Intn(2)]
+	// pool: 0 text, 1 selection, 2 = 1 (counted), 3 the prefix, 4 = 3 (counted), 5, 6 edits of 3 addressed from the end
 	g.emit("prog", strings.Join([]string{g.editStep(sb.String(), o), fmt.Sprintf("chars,0,%d,%d", g.r.Intn(5), 5+nsel), "charcount,1", cut,
-		"charcount,2", "delete,2,-1,End", fmt.Sprintf("overtype,2,-1,%s", encText("Z")), "string,2", "commit,2", "string,5", "commit,5"}, ";"))
+		"charcount,3", "delete,3,-1,End", fmt.Sprintf("overtype,3,-1,%s", encText("Z")), "string,3", "commit,3", "string,5", "commit,5", "charcount,6"}, ";"))
 }
 
 func (g *gen) groupCommit(n int) {
